@@ -37,6 +37,7 @@ for cls, qn in (('Socket', 'socket.Socket.poll'), ('AsyncSocket', 'async_socket.
     c.requires(SOCK_WF, 'socket-wf')
     c.may_raise('QueueEmpty', 'True', label='timeout',
                 ensures=[('nothing-taken', 'self.queue.taken == old(self.queue.taken)'),
+                         ('queue-wf', 'self.queue.unf >= len(self.queue.items)'),
                          ('waited-full-timeout',
                           'now <= old(now) + self.server.ping_interval + self.server.ping_timeout')])
     c.ensures('no-None-in-result', 'forall(lambda k: result[k] is not None, 0, len(result))')
@@ -104,8 +105,10 @@ for cls, mod in (('Socket', 'socket'), ('AsyncSocket', 'async_socket')):
         c.ghost_entry('received', 'received + [pkt]')
         c.ensures('logged-received', 'received == old(received) + [pkt]')
         for rc in c.raises_:
-            rc.ensures.append(__import__('pyvc.contract', fromlist=['Clause']).Clause(
-                'logged-received', 'received == old(received) + [pkt]', c.props))
+            Cl = __import__('pyvc.contract', fromlist=['Clause']).Clause
+            rc.ensures.append(Cl('logged-received', 'received == old(received) + [pkt]', c.props))
+            rc.ensures.append(Cl('queue-untouched', 'self.queue.unf >= len(self.queue.items) and '
+                                 'self.queue.taken == old(self.queue.taken)', c.props))
         c.modifies('ghost.received')
 
 # ----------------------------------------------------------------------------------------- send
@@ -131,8 +134,10 @@ for cls, mod in (('Socket', 'socket'), ('AsyncSocket', 'async_socket')):
         c.ghost_entry('received', 'received + [pkt]')
         c.ensures('logged-received', 'received == old(received) + [pkt]')
         for rc in c.raises_:
-            rc.ensures.append(__import__('pyvc.contract', fromlist=['Clause']).Clause(
-                'logged-received', 'received == old(received) + [pkt]', c.props))
+            Cl = __import__('pyvc.contract', fromlist=['Clause']).Clause
+            rc.ensures.append(Cl('logged-received', 'received == old(received) + [pkt]', c.props))
+            rc.ensures.append(Cl('queue-untouched', 'self.queue.unf >= len(self.queue.items) and '
+                                 'self.queue.taken == old(self.queue.taken)', c.props))
         c.modifies('ghost.received')
 
 # ---------------------------------------------------------------------------------------- close
@@ -260,8 +265,10 @@ for cls, mod in (('Socket', 'socket'), ('AsyncSocket', 'async_socket')):
         c.ghost_entry('received', 'received + [pkt]')
         c.ensures('logged-received', 'received == old(received) + [pkt]')
         for rc in c.raises_:
-            rc.ensures.append(__import__('pyvc.contract', fromlist=['Clause']).Clause(
-                'logged-received', 'received == old(received) + [pkt]', c.props))
+            Cl = __import__('pyvc.contract', fromlist=['Clause']).Clause
+            rc.ensures.append(Cl('logged-received', 'received == old(received) + [pkt]', c.props))
+            rc.ensures.append(Cl('queue-untouched', 'self.queue.unf >= len(self.queue.items) and '
+                                 'self.queue.taken == old(self.queue.taken)', c.props))
         c.modifies('ghost.received')
 
 # ------------------------------------------------------------------------- handle_post_request
@@ -301,3 +308,117 @@ for cls, mod in (('Socket', 'socket'), ('AsyncSocket', 'async_socket')):
         ('each-once-in-order', 'received == old(received) + p.packets[0:i]'),
         ('queue-wf', 'self.queue.unf >= len(self.queue.items)')],
         modifies=SOCK_MOD + ['ghost.received'], props=['C04'])
+
+# ------------------------------------------------------------------------- _websocket_handler
+WS_MOD = SOCK_MOD + ['self.upgrading', 'self.upgraded', 'self.connected', 'ghost.ws_log',
+                     'ghost.received', 'Packet.binary', 'Packet.packet_type', 'Packet.data',
+                     'Packet.encode_cache']
+HS_PRE = 'not self.upgrading and implies(self.connected, not self.upgraded)'
+c = REG.contract('socket.Socket._websocket_handler', props=['C03', 'C04', 'C05', 'C06', 'C14'])
+c.param('self', Ref('Socket')).param('ws', Opaque('WS'))
+c.returns(QI)
+c.shards = 6
+c.requires(SOCK_WF, 'socket-wf')
+c.requires(HS_PRE, 'one-upgrade-at-a-time')
+c.requires('not self.closed', 'session-open')
+c.requires('self.server.max_http_buffer_size >= 0', 'limit-nonneg')
+c.abstract("for attr in ['_sock', 'socket']:",
+           'socket time-out tuning on driver-internal attributes; touches no modelled state')
+# C05: after the disconnect event no frame is read any more (so none can produce an event)
+c.check_before('try: p = websocket_wait()', 'reads-only-while-open', 'not self.closed',
+               props=['C05'])
+c.may_raise('Exception', 'True', label='driver-or-frame-error', ensures=[
+    ('failed-upgrade-consumes-nothing',
+     'implies(not self.upgraded, self.queue.taken == old(self.queue.taken))')], props=['C06'])
+c.ensures('flag-reset', 'not self.upgrading', props=['C06'])
+c.ensures('upgrade-only-via-probe', 'implies(old(self.connected) and self.upgraded, '
+          'handshake_frames(ws_log, len(old(ws_log))))', props=['C06'])
+c.ensures('failed-upgrade-harmless', 'implies(old(self.connected) and not self.upgraded, '
+          'self.queue.taken == old(self.queue.taken) and '
+          'self.queue.items[0:len(old(self.queue.items))] == old(self.queue.items) and '
+          'self.closing == old(self.closing) and self.closed == old(self.closed) and '
+          'events == old(events))', props=['C06', 'C03'])
+c.ensures('direct-websocket-mode', 'implies(not old(self.connected), self.connected and '
+          'self.upgraded)', props=['C06'])
+c.ensures('ends-closed', 'implies(self.upgraded, self.closing)', props=['C05'])
+c.ensures('result-empty', 'result == []')
+c.modifies(*WS_MOD)
+c.loop(1, invariants=[
+    ('steady-state', 'self.upgraded and not self.upgrading and self.connected'),
+    ('queue-wf', 'self.queue.unf >= len(self.queue.items)'),
+    ('handshake-record', 'implies(old(self.connected), '
+     'handshake_frames(ws_log, len(old(ws_log))))'),
+    ('taken-unchanged', 'self.queue.taken == old(self.queue.taken)')],
+    modifies=['p', 'pkt'] + WS_MOD, summarize=True)
+
+# -------------------------------------------------------------------------- _upgrade_websocket
+from .schemas import RESP  # noqa: E402
+SR = Opaque('StartResponse')
+c = REG.contract('socket.Socket._upgrade_websocket', props=['C06', 'C03', 'C05'])
+c.param('self', Ref('Socket')).param('environ', ENV).param('start_response', SR)
+c.returns_cases(('unavailable', "self.server._async['websocket'] is None", RESP),
+                ('handled', "self.server._async['websocket'] is not None", QI))
+c.requires(SOCK_WF, 'socket-wf')
+c.requires('not self.upgrading and not self.closed', 'one-upgrade-at-a-time')
+c.requires('self.server.max_http_buffer_size >= 0', 'limit-nonneg')
+c.raises('OSError', 'self.upgraded', label='already-upgraded-refused',
+         ensures=[('established-websocket-undisturbed', QUIET + ' and ws_log == old(ws_log) and '
+                   'self.queue.taken == old(self.queue.taken) and '
+                   'self.queue.items == old(self.queue.items)')], props=['C06'])
+c.may_raise('Exception', 'not self.upgraded', label='driver-or-frame-error', ensures=[
+    ('flag-reset', 'not self.upgrading'),
+    ('failed-upgrade-consumes-nothing',
+     'implies(not self.upgraded, self.queue.taken == old(self.queue.taken))')], props=['C06'])
+c.ensures('flag-reset', 'not self.upgrading', props=['C06'])
+c.ensures('unavailable-is-400', "implies(self.server._async['websocket'] is None, "
+          "result['status'] == '400 BAD REQUEST' and " + QUIET + ")", props=['C06'])
+c.ensures('upgrade-only-via-probe', 'implies(old(self.connected) and self.upgraded, '
+          'handshake_frames(ws_log, len(old(ws_log))))', props=['C06'])
+c.ensures('failed-upgrade-harmless', "implies(old(self.connected) and not self.upgraded and "
+          "self.server._async['websocket'] is not None, "
+          'self.queue.taken == old(self.queue.taken) and '
+          'self.queue.items[0:len(old(self.queue.items))] == old(self.queue.items) and '
+          'self.closing == old(self.closing) and self.closed == old(self.closed) and '
+          'events == old(events))', props=['C06', 'C03'])
+c.ensures('direct-websocket-mode', "implies(not old(self.connected) and "
+          "self.server._async['websocket'] is not None, self.connected and self.upgraded)",
+          props=['C06'])
+c.modifies(*WS_MOD)
+
+# -------------------------------------------------------------------------- handle_get_request
+c = REG.contract('socket.Socket.handle_get_request', props=['C03', 'C05', 'C06', 'C07'])
+c.param('self', Ref('Socket')).param('environ', ENV).param('start_response', SR)
+UPG = 'is_upgrade_request(environ, self.upgrade_protocols)'
+c.returns_cases(('upgrade-unavailable', UPG + " and self.server._async['websocket'] is None", RESP),
+                ('packets', "not (" + UPG + " and self.server._async['websocket'] is None)", QI))
+c.requires(SOCK_WF, 'socket-wf')
+c.requires('not self.upgrading or not ' + UPG, 'one-upgrade-at-a-time')
+c.requires('not self.closed', 'live-session')
+c.requires('self.server.max_http_buffer_size >= 0', 'limit-nonneg')
+c.raises('OSError', UPG + ' and self.upgraded', label='already-upgraded-refused',
+         ensures=[('established-websocket-undisturbed', QUIET + ' and ws_log == old(ws_log) and '
+                   'self.queue.taken == old(self.queue.taken)')], props=['C06'])
+c.may_raise('Exception', UPG + ' and not self.upgraded', label='driver-or-frame-error', ensures=[
+    ('flag-reset', 'not self.upgrading'),
+    ('failed-upgrade-consumes-nothing',
+     'implies(not self.upgraded, self.queue.taken == old(self.queue.taken))')], props=['C06'])
+c.may_raise('QueueEmpty', 'not ' + UPG + ' and not (self.upgrading or self.upgraded)',
+            label='poll-timeout-closes-session', ensures=[
+    ('nothing-taken', 'self.queue.taken == old(self.queue.taken)'),
+    ('closed-with-transport-error', "self.closing and implies(not old(self.closing) and "
+     "'disconnect' in self.server.handlers, one_disconnect(events, old(events), "
+     "self.server.handlers['disconnect'], self.sid, 'transport error'))")],
+            props=['C07', 'C05'])
+c.ensures('polls-during-upgrade-get-noop', 'implies(not ' + UPG + ' and '
+          '(old(self.upgrading) or old(self.upgraded)), len(result) == 1 and '
+          'result[0].packet_type == 6 and self.queue.taken == old(self.queue.taken) and '
+          'self.queue.items == old(self.queue.items) and ' + QUIET + ')', props=['C03'])
+c.ensures('poll-returns-what-it-took', 'implies(not ' + UPG + ' and '
+          'not (old(self.upgrading) or old(self.upgraded)), '
+          'self.queue.taken == old(self.queue.taken) + result and '
+          'forall(lambda k: result[k] is not None, 0, len(result)) and ' + FLAGS_SAME +
+          ' and events == old(events))', props=['C03'])
+c.ensures('flag-reset', 'implies(' + UPG + ', not self.upgrading)', props=['C06'])
+c.ensures('upgrade-only-via-probe', 'implies(' + UPG + ' and old(self.connected) and '
+          'self.upgraded, handshake_frames(ws_log, len(old(ws_log))))', props=['C06'])
+c.modifies(*WS_MOD)
